@@ -65,6 +65,7 @@ type model struct {
 	state   int
 	stateFn *fnSpec
 	compare bool
+	coarse  bool  // the equality function only looks at the value modulo 1000
 	retry   []int // scripted back-off (ms; -1 = Stop); nil = no retry
 	boIdx   int
 	now     func() time.Duration
@@ -233,6 +234,9 @@ func (m *model) running() bool {
 // SetState returns (chNonNil, changed, reset, running).
 func (m *model) SetState(st int) (bool, bool, bool, bool) {
 	changed := !m.compare || st != m.state
+	if m.compare && m.coarse {
+		changed = st%1000 != m.state%1000
+	}
 	if !changed {
 		return false, false, false, false
 	}
